@@ -8,6 +8,7 @@ import (
 	"fmt"
 	"runtime"
 	"strings"
+	"sync"
 	"time"
 )
 
@@ -36,18 +37,22 @@ type feItem struct {
 }
 
 type feCase struct {
-	Nested      bool
-	Items       []feItem
-	ParMode     string // omitted | literal | input
-	Par         int    // effective parallelism of the outer loop
-	InnerPar    int    // effective parallelism of the inner loops (nested)
-	InnerMode   string // omitted | literal
-	DeclAlt     bool   // sub.yaml declares an output `alt`
-	DeclErr     bool   // sub.yaml declares an output `error`
-	DeclFailed  bool   // mid.yaml declares an output `failed`
-	DelayMode   string
-	CloseAfter  int // ms, -1 = never
-	EstimatedMs int
+	Nested     bool
+	Items      []feItem
+	ParMode    string // omitted | literal | input
+	Par        int    // effective parallelism of the outer loop
+	InnerPar   int    // effective parallelism of the inner loops (nested)
+	InnerMode  string // omitted | literal
+	DeclAlt    bool   // sub.yaml declares an output `alt`
+	DeclErr    bool   // sub.yaml declares an output `error`
+	DeclFailed bool   // mid.yaml declares an output `failed`
+	DelayMode  string
+	CloseAfter int // ms, -1 = never
+	// > 0: the caller's context is cancelled at the moment the k-th item handler starts (an instant defined by the run's
+	// own progress, not by the clock: the same point of the run is hit on a loaded machine); CloseAfter is then only the
+	// fallback for runs that never get that far
+	CancelOnStarts int
+	EstimatedMs    int
 	// targeted classes (see feGenLongQueue / feGenCancelQueue); the random generator leaves them at their zero values
 	Class      string // "" (random) | long-queue | cancel-queue
 	DeployMs   int    // > 0: every deployment of an item plugin takes this long ...
@@ -248,6 +253,14 @@ func feGen(r *rng, tier string, closeMode bool) *feCase {
 	}
 	if closeMode {
 		c.CloseAfter = r.intn(c.EstimatedMs + 15)
+		if !c.Nested && r.chance(1, 3) {
+			k := c.Par + 1
+			if k > len(c.Items) {
+				k = len(c.Items)
+			}
+			c.CancelOnStarts = 1 + r.intn(k)
+			c.CloseAfter = 5000
+		}
 	}
 	return c
 }
@@ -408,7 +421,7 @@ func execForeachCase(caseID string, c *feCase) map[string]any {
 	out := map[string]any{"kind": "foreach", "id": caseID, "yaml": text, "files": filesOut, "nested": c.Nested,
 		"n": len(c.Items), "items": c.Items, "par_mode": c.ParMode, "parallelism": c.Par,
 		"inner_mode": c.InnerMode, "inner_parallelism": c.InnerPar, "decl_alt": c.DeclAlt, "decl_err": c.DeclErr,
-		"decl_failed": c.DeclFailed, "delay_mode": c.DelayMode, "close_after_ms": c.CloseAfter, "src": feSrc,
+		"decl_failed": c.DeclFailed, "delay_mode": c.DelayMode, "close_after_ms": c.CloseAfter, "cancel_on_starts": c.CancelOnStarts, "src": feSrc,
 		"input": encVal(input), "class": c.Class, "deploy_ms": c.DeployMs, "deploy_hard": c.DeployHard,
 		"closure_ms": c.ClosureMs}
 	s.probe.Store(true)
@@ -441,12 +454,26 @@ func execForeachCase(caseID string, c *feCase) map[string]any {
 	}()
 	cancelAt := make(chan time.Time, 1)
 	var tm *time.Timer
-	if c.CloseAfter >= 0 {
-		tm = time.AfterFunc(time.Duration(c.CloseAfter)*time.Millisecond, func() {
+	var cancelOnce sync.Once
+	doCancel := func() {
+		cancelOnce.Do(func() {
 			cancelAt <- time.Now()
 			s.add("ctx-cancel", "", "", "", nil)
 			cancel()
 		})
+	}
+	if c.CancelOnStarts > 0 {
+		k := int64(c.CancelOnStarts)
+		hook := func(n int64) {
+			if n == k {
+				go doCancel()
+			}
+		}
+		s.startHook.Store(&hook)
+		defer s.startHook.Store(nil)
+	}
+	if c.CloseAfter >= 0 {
+		tm = time.AfterFunc(time.Duration(c.CloseAfter)*time.Millisecond, doCancel)
 	}
 	result := loopResult{}
 	select {
